@@ -681,7 +681,12 @@ class CellsImpl(*_cells_impl_base):
             self.altfunc = CellsBoundFunction(self)
 
     def on_namespace_change(self):
-        self.clear_all_values(clear_input=False)
+        if self.is_cached:
+            self.clear_all_values(clear_input=False)
+        else:
+            # An uncached cells has no values of its own, but values of
+            # cached cells calculated through it must be cleared
+            self.model.clear_obj(self)
 
     # ----------------------------------------------------------------------
     # repr methods
